@@ -14,7 +14,7 @@ CLAIMED = {
           "(C01_lexer_total); the parser model never panics (C01_parser_no_panic, C01_no_panic), makes progress in every successful sub-parse (C01_progress) "
           "and therefore terminates - the explicit fuel is never exhausted (C01_terminates), and the outcome is the same for every larger fuel (C01_fuel_irrelevant) - so parsing returns Ok or Err (C01_total); every returned tree is "
           "at most MAX_DEPTH+1 high (C01_ast_height), which bounds the recursion of Clone/Drop/exec/expr/describe; the nesting guard refuses at MAX_DEPTH "
-          "(C01_depth_guard). All by mutual induction over the eight parser functions. Partial only in that stack BYTES are measured, not modelled. " + TIE +
+          "(C01_depth_guard). All by mutual induction over the eight parser functions. For execute: every list and map a program builds is nested at most MAX_DEPTH deep, whatever the context held and the handlers returned (C01_built_values_are_bounded, after fix d4f0af3 for finding D24), which bounds the recursion of Value's clone / comparison / drop. Partial only in that stack BYTES are measured, not modelled. " + TIE +
           "24 deep/long input families (incl. nested parenthesised chains whose tree height is quadratic in the nesting) at n up to 100 000, each in its own "
           "process on a 2 MiB thread.",
           "Coq kernel; Lexer.v/Parser.v/Printer.v hand-written and tied by correspondence; stack bytes are a property of rustc's frames "
